@@ -223,7 +223,7 @@ def memento_case(spec):
     out = {"evaluations": 1, "states": 1, "transitions": 1, "traces": 1, "violations": [], "outcomes": []}
     allv = dict(values.arg_atoms() + values.containers(values.arg_atoms(), 2) + c04.fn_atoms())
     (fname, partial), argnames, kwnames, ctxnames, ninv, nres, ckey, rtype, runtime, tkind, runner, cid = spec
-    f = getattr(fx, fname)
+    f = getattr(fx, fname) if fname != "Outer.Inner.sfn" else fx.Outer.Inner.sfn
     if partial == "pos":
         f = f.partial(allv["'é'"])
     elif partial == "kw":
@@ -246,6 +246,8 @@ def memento_case(spec):
     invs = [fx.g.fn_reference().with_args(i % 2, q=allv["dt-utc"]) for i in range(ninv)]  # ninv == 3: the third repeats the first
     if ninv == 2:
         invs[1] = fx.g.partial(fx.f1).fn_reference().with_args(q=[allv["date"], {"z": allv["nan"]}] if spec[1] and "nan" in spec[1] else [allv["date"]])
+    if ninv == 5:
+        invs = [fx.Outer.Inner.sfn.fn_reference().with_args(1), fx.Outer.Inner.sfn.partial(3).fn_reference().with_args(b=4), fx.g.fn_reference().with_args(0)]
     if ninv == 4:
         # invocations of a version of g that no longer exists (decodes to an unbound external reference): positional
         # and keyword arguments - the parameter names travel in the document
@@ -316,8 +318,13 @@ def memento_case(spec):
         diffs.append("runtime %r -> %r" % (a.runtime, b.runtime))
     if a.result_type != b.result_type:
         diffs.append("result type")
-    if {d.qualified_name for d in m0.function_dependencies} != {d.qualified_name for d in m1.function_dependencies}:
+    # the dependency set holds references: two partial applications of one function are two members
+    if len(m0.function_dependencies) != len(m1.function_dependencies) or not all(
+            any(same_ref(d, e) and (d.external == e.external or ninv == 4) for e in m1.function_dependencies) for d in m0.function_dependencies):
         diffs.append("function dependencies")
+    # (ninv == 4 builds references to a version that does not exist: those legitimately come back as stubs)
+    if ninv != 4 and not all(x.fn_reference.external == y.fn_reference.external for x, y in zip([a.fn_reference_with_args] + list(a.invocations), [b.fn_reference_with_args] + list(b.invocations))):
+        diffs.append("a reference to an existing function came back as an external stub (or the reverse)")
     if m0.runner != m1.runner or m0.correlation_id != m1.correlation_id:
         diffs.append("runner/correlation id")
     if m0.content_key != m1.content_key:
@@ -338,6 +345,9 @@ def specs(tier):
         out.append(base[:1] + ((n,), (), ()) + base[4:])
         out.append((("fkw", None), ("1",), (("extra", n),), ()) + base[4:])
         out.append((("f1", None), ("1",), (), (("ctx", n),)) + base[4:])
+    # a function in a class nested in another class, as the called function and as the function of an invocation
+    out.append((("Outer.Inner.sfn", None), ("1",), (), ()) + base[4:])
+    out.append((("Outer.Inner.sfn", None), ("1", "'a'"), (), (), 5, 0, "plain", "string", 1.5, "utc", {"type": "local"}, "cid_1"))
     from twosigma.memento.metadata import ResultType
 
     rts = [r.name for r in ResultType if r.name != "memento_function"]
